@@ -74,6 +74,33 @@ fn report_failure(args: &Args, rep: &mut Report, ast: &OpeningHoursExpression, h
 pub fn run(args: &Args, rep: &mut Report) {
     let n = args.cases(360_000, 3_000_000);
     let sweep = if args.thorough() { 800 } else { 0 };
+    // exhaustive part: every value of every atomic field, alone and followed by a second canonical
+    // rule (so that the paving has something to fold it with)
+    for (i, ast) in atomic_asts().iter().enumerate() {
+        if (i as u64) % args.of.max(1) != args.worker {
+            continue;
+        }
+        let mut r = Rng::new(args.seed, 0xa70, i as u64);
+        let mut variants = vec![ast.clone()];
+        if let Ok(second) = lib_parse("Mo-Fr 09:00-17:00") {
+            let mut two = ast.clone();
+            two.rules.extend(second.rules);
+            variants.push(two);
+        }
+        for v in variants {
+            rep.evaluations += 1;
+            let text = render::plain(&v);
+            match check(&text, &v, &HolSpec::None, &mut r, 0) {
+                Ok(_) => rep.count("atomic_values_enumerated"),
+                Err(msg) => {
+                    report_failure(args, rep, &v, &HolSpec::None, &msg);
+                    if rep.full() {
+                        return;
+                    }
+                }
+            }
+        }
+    }
     for k in 0..n {
         let cfg = canonical_cfg(args.thorough(), k);
         let case = gen_case(args, k, &cfg, rep);
